@@ -44,6 +44,13 @@ def is_hash_type(cr, t):
         t = cr.T(t['to'])
     return t['k'] == 'adt' and t.get('path') in HASH_TYPES
 
+def is_btree_type(cr, t):
+    t = cr.T(t)
+    while t['k'] == 'ref':
+        t = cr.T(t['to'])
+    return t['k'] == 'adt' and t.get('path') in ('alloc::collections::btree::map::BTreeMap', 'alloc::collections::btree::set::BTreeSet',
+                                                 'std::collections::BTreeMap', 'std::collections::BTreeSet')
+
 def sources(cr, body):
     out = []
     for blk, key, c, t in body.calls():
@@ -153,6 +160,9 @@ def check_crate(cr, ctx, label):
                 args = [body.operand(a, (b2, 'T')) for a in t2['args']]
                 if not any(subterm(a, T) for a in args):
                     continue
+                if c2 and k2 in ('core::iter::traits::iterator::Iterator::collect', 'core::iter::traits::collect::FromIterator::from_iter', 'core::iter::traits::collect::Extend::extend') \
+                        and any(is_btree_type(cr, a) for a in c2.get('args', [])):
+                    sorts.append((b2, 'btree-collect', args)); continue      # an ordered container sorts by its (unique) key
                 if k2 in PROPAGATE or k2 in ORDER_FREE:
                     continue
                 if k2 in SORTS:
@@ -216,7 +226,7 @@ def check_crate(cr, ctx, label):
     return n_sites
 
 def fixture_stage():
-    st = X.Stage('fixture-c17-v3')
+    st = X.Stage('fixture-c17-v4')
     def build(out):
         ws = X.scratch_dir('fx17')
         try:
@@ -255,7 +265,7 @@ def main(tier, seed, t0):
         for k, r in want.items():
             if flagged.get(k) != r:
                 ctx.error('positive fixture %s not flagged by %s (got %s): the rule is broken' % (k, r, flagged.get(k)))
-        if 'good_sorted' in flagged or 'GOOD_TABLE' in flagged or 'good_point_ops' in flagged:
+        if any(g in flagged for g in ('good_sorted', 'GOOD_TABLE', 'good_point_ops', 'good_btree_collect')):
             ctx.error('a negative fixture was flagged: %s' % flagged)
         ctx.sample({'fixtures_flagged': flagged})
     ctx.programs = {'enum_tools'}
